@@ -46,7 +46,7 @@ func (i *iter) Next(ctx context.Context) (err error) {
 
 	if !i.moved {
 		i.moved = true
-		return nil
+		return i.checkBorder()
 	}
 
 	i.count++
